@@ -450,7 +450,7 @@ def run(ctx):
 
     t0 = time.time()
     res0 = pmap(fresh, [(j, "0") for j in jobs])
-    second = set(range(len(jobs))) if not quick else set(rng.sample(range(len(jobs)), min(16, len(jobs))))
+    second = set(range(len(jobs))) if not quick else set(rng.sample(range(len(jobs)), min(8, len(jobs))))
     res1_part = pmap(fresh, [(jobs[k], "20260930") for k in sorted(second)])
     res1 = list(res0)
     for k, r in zip(sorted(second), res1_part):
@@ -510,7 +510,7 @@ def run(ctx):
             rest = [c for c in cand if c not in head]
             vr.shuffle(rest)
             aware = bool(head) or any(c[0].startswith(("comment_text", "one_comment")) for c in cand)
-            cand = (head + rest[:1]) if aware else (rest[:2] if vr.random() < 0.34 else [])
+            cand = (head[:1] + rest[:1]) if aware else (rest[:1] if vr.random() < 0.12 else [])
         for tag, vt in cand:
             vname = f"{j['fname']}__{tag}"
             vpath = os.path.join(vdir, vname)
@@ -536,7 +536,11 @@ def run(ctx):
             ctx.count("variant:" + v["tag"].split("_")[0])
             corpus.append(v)
     # a reference must be reproducible: second fresh interpreter (other hash seed, later wall-clock time) for every kept variant
-    again = pmap(fresh, [(v, "20260930") for v in corpus[n0:]])
+    recheck = set(range(n0, len(corpus))) if not quick else set(rng.sample(range(n0, len(corpus)), min(8, len(corpus) - n0)))
+    again_part = pmap(fresh, [(corpus[k], "20260930") for k in sorted(recheck)])
+    again = [{"digest": v["digest"]} for v in corpus[n0:]]
+    for k, r in zip(sorted(recheck), again_part):
+        again[k - n0] = r
     stable = []
     for v, b_ in zip(corpus[n0:], again):
         if b_.get("digest") == v["digest"]:
@@ -570,245 +574,301 @@ def run(ctx):
                           for j in corpus)
     files_term = emit.lst(emit.pair(emit.z(fidx[f]), emit.z(zdig(c))) for f, c in sorted(content_of.items()))
 
-    # ---------------------------------------------------------------- C. histories
-    n = n0                                  # the general pair / triple loops run over the example-file jobs
-    heavy = {k for k, j in enumerate(corpus) if os.path.getsize(j["file"]) > HEAVY_BYTES}
-    hist = []          # (label dict, ops)
-    base = [0]
-
-    def push(label, mk):
-        ops = mk(base[0])
-        base[0] += 8
-        hist.append((label, ops))
-
-    same_family = lambda a, b_: fam[corpus[a]["parser"]] == fam[corpus[b_]["parser"]]
-    NI = len(INTERLEAVINGS)
-    for a in range(n):
-        push({"shape": "reparse", "A": a}, lambda b0, a=a: reparse_history(a, b0))
-        for b_ in range(n):
-            hv_ = a in heavy or b_ in heavy
-            if same_family(a, b_):
-                k = (1 if hv_ else 2) if quick else (3 if hv_ else NI)
-            elif quick:
-                k = 1 if rng.random() < (0.1 if hv_ else 0.33) else 0      # seeded third of the cross-family pairs
-            else:
-                k = 1 if hv_ else 3
-            for il in rng.sample(range(NI), k):
-                push({"shape": "pair", "A": a, "B": b_, "interleaving": INTERLEAVINGS[il]},
-                     lambda b0, a=a, b_=b_, il=il: pair_history(a, b_, il, b0))
-    # per parser: its example files and their variants - every ordered pair X -> Y -> X (with / without the optional records)
-    groups = {}
-    for k, j in enumerate(corpus):
-        if k >= n0 or not j["args"] or True:
-            groups.setdefault(j["parser"], []).append(k)
-    for pname, members in sorted(groups.items()):
-        if not any(k >= n0 for k in members):
-            continue
-        for a in members:
-            for b_ in members:
-                if a == b_ or (a < n0 and b_ < n0) or (quick and (a in heavy or b_ in heavy)):
-                    continue
-                for il in rng.sample(range(NI), 1 if quick else 4):
-                    push({"shape": "variant_pair", "A": a, "B": b_, "interleaving": INTERLEAVINGS[il]},
-                         lambda b0, a=a, b_=b_, il=il: pair_history(a, b_, il, b0))
-    light = [k for k in range(n) if k not in heavy]
-    by_fam = {}
-    for k in light:
-        by_fam.setdefault(fam[corpus[k]["parser"]], []).append(k)
-    for f_, members in sorted(by_fam.items()):
-        trip = list(itertools.product(members, repeat=3))
-        cap = 40 if quick else 3000
-        if len(trip) > cap:
-            trip = rng.sample(trip, cap)
-        for a, b_, c in trip:
-            push({"shape": "triple", "A": a, "B": b_, "C": c}, lambda b0, a=a, b_=b_, c=c: triple_history(a, b_, c, b0))
-    for _ in range(60 if quick else 5000):
-        a, b_, c = rng.choice(light), rng.choice(light), rng.choice(light)
-        push({"shape": "triple", "A": a, "B": b_, "C": c}, lambda b0, a=a, b_=b_, c=c: triple_history(a, b_, c, b0))
-    rng.shuffle(hist)
-    nb = core.NCPU * (2 if quick else 8)
-    batches = [hist[k::nb] for k in range(nb)]
-    batches = [b_ for b_ in batches if b_]
-    for label, _ in hist:
-        ctx.count("history:" + label["shape"])
-    ctx.log(f"histories: {len(hist)} in {len(batches)} interpreters")
-
-    def run_batch(batch):
-        ops = [o for _, h in batch for o in ops_to_worker(h, corpus)]
-        return worker("history", {"ops": ops}, timeout=3000)
-
-    t0 = time.time()
-    results = pmap(run_batch, batches)
-    ctx.log(f"histories run in {time.time() - t0:.0f}s")
-
-    def label_text(label):
-        d = dict(label)
-        for k in ("A", "B", "C"):
-            if k in d:
-                j = corpus[d[k]]
-                d[k] = f"{j['parser']}({j['fname']}{'' if not j['args'] else ', ' + j['argkey']})"
-        return d
-
-    shard_terms, shard_meta = [], []
-    for batch, res in zip(batches, results):
-        if isinstance(res, dict):
-            ctx.violation({"kind": "history_worker_failed", "error": res.get("worker_error"),
-                           "histories": [label_text(l) for l, _ in batch][:5]},
-                          what="a history interpreter crashed: " + str(res.get("worker_error"))[-200:], found=False)
-            continue
-        # observation k of the batch belongs to history owner[k]
-        owner = []
-        for hi, (_, h) in enumerate(batch):
-            owner += [hi] * sum(1 for o in h if o[0] in ("parse", "parse_file"))
-        if len(owner) != len(res):
-            ctx.violation({"kind": "observation_count", "expected": len(owner), "got": len(res)}, what="observation count differs", found=False)
-            continue
-        cases = []
-        k = 0
-        for hi, (label, h) in enumerate(batch):
-            nobs = sum(1 for o in h if o[0] in ("parse", "parse_file"))
-            obs_t = emit.lst(f"zo {emit.z(o['i'])} {emit.z(zdig(o['digest']))} {emit.z(zdig(o['file_before']))} {emit.z(zdig(o['file_after']))}"
-                             for o in res[k:k + nobs])
-            cases.append(f"zh {ops_to_coq(h, corpus, pidx, fidx, aidx)} {obs_t}")
-            k += nobs
-            ctx.case(("H", json.dumps(label_text(label), sort_keys=True)), nontrivial=True,
-                     sample=label_text(label) if len(ctx.samples) < 4 else None)
-        shard_terms.append("let t := " + table_term + " in\nlet files := " + files_term + " in\n"
-                           "List.concat (List.map (fun c => check_history_detail (t, files, fst c, snd c))\n" + emit.lst(cases) + ")")
-        shard_meta.append((batch, res, owner))
-    t0 = time.time()
-    vs = ctx.coq_cases(shard_terms, REQ, timeout=1500)
-    ctx.log(f"history verdicts computed in Coq in {time.time() - t0:.0f}s")
+    # The three correspondence parts first do all their interpreter work, then hand their Coq terms to ONE coq_cases call
+    # (one wait for coqc slots instead of three), then report.
     reparse_diff = set()
-    unexplained = []
-    for (batch, res, owner), v in zip(shard_meta, vs):
-        if v is None or len(v) != len(res):
-            ctx.violation({"broken": "history shard did not evaluate in Coq", "errors": [e[1][-800:] for e in ctx.last_coq_errors[:1]]},
-                          what="correspondence (model evaluation) failed", found=False)
-            continue
-        for k, code in enumerate(v):
-            if code == 0:
-                continue
-            label, h = batch[owner[k]]
-            if code == 3:
-                reparse_diff.add(res[k]["parser"])
-                continue
-            unexplained.append((code, label, h, res[k], batch, owner[k]))
 
-    # isolate: re-run the single history in its own interpreter; keep the smaller failing input when it reproduces
-    fresh_of = {(j["parser"], j["file"], j["argkey"]): j for j in corpus}
-    for code, label, h, ob, batch, hpos in unexplained[:4]:
-        alone = worker("history", {"ops": ops_to_worker(h, corpus)}, timeout=600)
-        lone_bad = []
-        if isinstance(alone, list):
-            for o in alone:
-                cand = [j for j in corpus if j["parser"] == o["parser"] and j["file"] == o["file"]]
-                if not any(c["digest"] == o["digest"] for c in cand) or o["file_before"] != o["file_after"]:
-                    lone_bad.append({k: o.get(k) for k in ("i", "parser", "file", "digest", "exc", "parts", "file_before", "file_after")})
-        rep = {"kind": "history", "history": label_text(label), "ops": ops_to_worker(h, corpus), "verdict_code": code,
-               "observed": {k: ob.get(k) for k in ("i", "parser", "file", "digest", "exc", "parts", "file_before", "file_after")},
-               "fresh_digests": {f"{j['parser']}|{j['fname']}|{j['argkey']}": j["digest"] for j in corpus
-                                 if j["parser"] == ob["parser"] and j["file"] == ob["file"]},
-               "reproduces_alone_in_fresh_interpreter": bool(lone_bad), "alone_mismatches": lone_bad[:3],
-               "how": f"{sys.executable} run_check.py C16 replay <this file>   (runs `ops` in one fresh interpreter and compares each parse with a fresh-interpreter parse)"}
-        if not lone_bad and code != 4:
-            # the history is innocent: the state came from an earlier history of the same interpreter.  Find the smallest
-            # culprit "parse X, mutate result, then parse J", every candidate in its own fresh interpreter.
-            jx = next((j for kind, i, j in h if i == ob["i"] and j is not None), None)
-            seen_jobs = []
-            for _, hh in reversed(batch[:hpos]):
-                for kind, i, j in hh:
-                    if j is not None and j not in seen_jobs:
-                        seen_jobs.append(j)
-            if jx is not None:
-                rank = lambda j: (corpus[j]["parser"] != corpus[jx]["parser"], fam[corpus[j]["parser"]] != fam[corpus[jx]["parser"]])
-                cands = sorted(seen_jobs, key=rank)[:48]
-                mk = lambda j: [("parse_file", 0, j), ("mutate", 0, None), ("parse_file", 1, jx)]
-                outs = pmap(lambda j: worker("history", {"ops": ops_to_worker(mk(j), corpus)}, timeout=600), cands)
-                for j, o in zip(cands, outs):
-                    if isinstance(o, list) and len(o) == 2 and o[1].get("digest") != corpus[jx]["digest"]:
-                        rep["ops"] = ops_to_worker(mk(j), corpus)
-                        rep["minimal_history"] = label_text({"shape": "X then J", "A": j, "B": jx})
-                        rep["observed"] = {k: o[1].get(k) for k in ("i", "parser", "file", "digest", "exc", "parts")}
-                        rep["reproduces_alone_in_fresh_interpreter"] = True
-                        label = {"shape": "parse_file A; mutate; parse_file B", "A": j, "B": jx}
-                        break
-        if code == 4:
-            ctx.violation(rep, what=f"parsing changed the input file: {ob['parser']} on {os.path.basename(ob['file'])}")
-        else:
-            ctx.violation(rep, what=f"parse of {ob['parser']}({os.path.basename(ob['file'])}) in history {label_text(label)} differs from the parse in a fresh interpreter")
-    if len(unexplained) > 4:
-        ctx.notes.append(f"{len(unexplained)} unexplained observations in total")
-    if reparse_diff:
-        ctx.count("quirk:reparse", len(reparse_diff))
-        ctx.finding("c16_reparse_accumulates",
-                    "a second parse() on the same parser object does not start from fresh state (data accumulates / raises)",
-                    {"kind": "reparse", "parsers": sorted(reparse_diff),
-                     "how": "p = plugins.call('midgard.parsers', name, file_path=f); p.parse(); d1 = digest(p); p.parse(); digest(p) != d1"})
+    # ---------------------------------------------------------------- C. histories
+    def phase_histories():
+        n = n0                                  # the general pair / triple loops run over the example-file jobs
+        heavy = {k for k, j in enumerate(corpus) if os.path.getsize(j["file"]) > HEAVY_BYTES}
+        hist = []          # (label dict, ops)
+        base = [0]
+
+        def push(label, mk):
+            ops = mk(base[0])
+            base[0] += 8
+            hist.append((label, ops))
+
+        same_family = lambda a, b_: fam[corpus[a]["parser"]] == fam[corpus[b_]["parser"]]
+        NI = len(INTERLEAVINGS)
+        for a in range(n):
+            push({"shape": "reparse", "A": a}, lambda b0, a=a: reparse_history(a, b0))
+            for b_ in range(n):
+                hv_ = a in heavy or b_ in heavy
+                same_parser = corpus[a]["parser"] == corpus[b_]["parser"]
+                if quick:
+                    if same_parser:
+                        k = 1 if hv_ else 2                                   # incl. A = A: parse, mutate the result, parse again
+                    elif same_family(a, b_):
+                        k = 1 if (not hv_ and rng.random() < 0.5) else 0
+                    else:
+                        k = 1 if rng.random() < (0.03 if hv_ else 0.12) else 0  # seeded sample of the cross-family pairs
+                elif same_family(a, b_):
+                    k = 3 if hv_ else NI
+                else:
+                    k = 1 if hv_ else 3
+                for il in rng.sample(range(NI), k):
+                    push({"shape": "pair", "A": a, "B": b_, "interleaving": INTERLEAVINGS[il]},
+                         lambda b0, a=a, b_=b_, il=il: pair_history(a, b_, il, b0))
+        # per parser: its example files and their variants - every ordered pair X -> Y -> X (with / without the optional records)
+        groups = {}
+        for k, j in enumerate(corpus):
+            if k >= n0 or not j["args"] or True:
+                groups.setdefault(j["parser"], []).append(k)
+        for pname, members in sorted(groups.items()):
+            if not any(k >= n0 for k in members):
+                continue
+            for a in members:
+                for b_ in members:
+                    if a == b_ or (a < n0 and b_ < n0) or (quick and (a in heavy or b_ in heavy)):
+                        continue
+                    for il in rng.sample(range(NI), 1 if quick else 4):
+                        push({"shape": "variant_pair", "A": a, "B": b_, "interleaving": INTERLEAVINGS[il]},
+                             lambda b0, a=a, b_=b_, il=il: pair_history(a, b_, il, b0))
+        light = [k for k in range(n) if k not in heavy]
+        by_fam = {}
+        for k in light:
+            by_fam.setdefault(fam[corpus[k]["parser"]], []).append(k)
+        for f_, members in sorted(by_fam.items()):
+            trip = list(itertools.product(members, repeat=3))
+            cap = 20 if quick else 3000
+            if len(trip) > cap:
+                trip = rng.sample(trip, cap)
+            for a, b_, c in trip:
+                push({"shape": "triple", "A": a, "B": b_, "C": c}, lambda b0, a=a, b_=b_, c=c: triple_history(a, b_, c, b0))
+        for _ in range(40 if quick else 5000):
+            a, b_, c = rng.choice(light), rng.choice(light), rng.choice(light)
+            push({"shape": "triple", "A": a, "B": b_, "C": c}, lambda b0, a=a, b_=b_, c=c: triple_history(a, b_, c, b0))
+        rng.shuffle(hist)
+        nb = core.NCPU * (1 if quick else 8)
+        batches = [hist[k::nb] for k in range(nb)]
+        batches = [b_ for b_ in batches if b_]
+        for label, _ in hist:
+            ctx.count("history:" + label["shape"])
+        ctx.log(f"histories: {len(hist)} in {len(batches)} interpreters")
+
+        def run_batch(batch):
+            ops = [o for _, h in batch for o in ops_to_worker(h, corpus)]
+            return worker("history", {"ops": ops}, timeout=3000)
+
+        t0 = time.time()
+        results = pmap(run_batch, batches)
+        ctx.log(f"histories run in {time.time() - t0:.0f}s")
+
+        def label_text(label):
+            d = dict(label)
+            for k in ("A", "B", "C"):
+                if k in d:
+                    j = corpus[d[k]]
+                    d[k] = f"{j['parser']}({j['fname']}{'' if not j['args'] else ', ' + j['argkey']})"
+            return d
+
+        shard_terms, shard_meta = [], []
+        for batch, res in zip(batches, results):
+            if isinstance(res, dict):
+                ctx.violation({"kind": "history_worker_failed", "error": res.get("worker_error"),
+                               "histories": [label_text(l) for l, _ in batch][:5]},
+                              what="a history interpreter crashed: " + str(res.get("worker_error"))[-200:], found=False)
+                continue
+            # observation k of the batch belongs to history owner[k]
+            owner = []
+            for hi, (_, h) in enumerate(batch):
+                owner += [hi] * sum(1 for o in h if o[0] in ("parse", "parse_file"))
+            if len(owner) != len(res):
+                ctx.violation({"kind": "observation_count", "expected": len(owner), "got": len(res)}, what="observation count differs", found=False)
+                continue
+            cases = []
+            k = 0
+            for hi, (label, h) in enumerate(batch):
+                nobs = sum(1 for o in h if o[0] in ("parse", "parse_file"))
+                obs_t = emit.lst(f"zo {emit.z(o['i'])} {emit.z(zdig(o['digest']))} {emit.z(zdig(o['file_before']))} {emit.z(zdig(o['file_after']))}"
+                                 for o in res[k:k + nobs])
+                cases.append(f"zh {ops_to_coq(h, corpus, pidx, fidx, aidx)} {obs_t}")
+                k += nobs
+                ctx.case(("H", json.dumps(label_text(label), sort_keys=True)), nontrivial=True,
+                         sample=label_text(label) if len(ctx.samples) < 4 else None)
+            shard_terms.append("let t := " + table_term + " in\nlet files := " + files_term + " in\n"
+                               "List.concat (List.map (fun c => check_history_detail (t, files, fst c, snd c))\n" + emit.lst(cases) + ")")
+            shard_meta.append((batch, res, owner))
+        t0 = time.time()
+        per = 2 if quick else 1                      # batches per Coq file (fewer coqc start-ups)
+        merged = ["List.app (" + ") (List.app (".join(shard_terms[k:k + per]) + ") []" + ")" * (len(shard_terms[k:k + per]) - 1)
+                  for k in range(0, len(shard_terms), per)]
+        mvs = yield merged
+        vs = []
+        for k, mv in zip(range(0, len(shard_terms), per), mvs):
+            lens = [len(m[1]) for m in shard_meta[k:k + per]]
+            if mv is None or len(mv) != sum(lens):
+                vs += [None] * len(lens)
+                continue
+            pos = 0
+            for ln in lens:
+                vs.append(mv[pos:pos + ln])
+                pos += ln
+            reparse_diff.clear()
+        unexplained = []
+        for (batch, res, owner), v in zip(shard_meta, vs):
+            if v is None or len(v) != len(res):
+                ctx.violation({"broken": "history shard did not evaluate in Coq", "errors": [e[1][-800:] for e in ctx.last_coq_errors[:1]]},
+                              what="correspondence (model evaluation) failed", found=False)
+                continue
+            for k, code in enumerate(v):
+                if code == 0:
+                    continue
+                label, h = batch[owner[k]]
+                if code == 3:
+                    reparse_diff.add(res[k]["parser"])
+                    continue
+                unexplained.append((code, label, h, res[k], batch, owner[k]))
+
+        # isolate: re-run the single history in its own interpreter; keep the smaller failing input when it reproduces
+        fresh_of = {(j["parser"], j["file"], j["argkey"]): j for j in corpus}
+        for code, label, h, ob, batch, hpos in unexplained[:4]:
+            alone = worker("history", {"ops": ops_to_worker(h, corpus)}, timeout=600)
+            lone_bad = []
+            if isinstance(alone, list):
+                for o in alone:
+                    cand = [j for j in corpus if j["parser"] == o["parser"] and j["file"] == o["file"]]
+                    if not any(c["digest"] == o["digest"] for c in cand) or o["file_before"] != o["file_after"]:
+                        lone_bad.append({k: o.get(k) for k in ("i", "parser", "file", "digest", "exc", "parts", "file_before", "file_after")})
+            rep = {"kind": "history", "history": label_text(label), "ops": ops_to_worker(h, corpus), "verdict_code": code,
+                   "observed": {k: ob.get(k) for k in ("i", "parser", "file", "digest", "exc", "parts", "file_before", "file_after")},
+                   "fresh_digests": {f"{j['parser']}|{j['fname']}|{j['argkey']}": j["digest"] for j in corpus
+                                     if j["parser"] == ob["parser"] and j["file"] == ob["file"]},
+                   "reproduces_alone_in_fresh_interpreter": bool(lone_bad), "alone_mismatches": lone_bad[:3],
+                   "how": f"{sys.executable} run_check.py C16 replay <this file>   (runs `ops` in one fresh interpreter and compares each parse with a fresh-interpreter parse)"}
+            if not lone_bad and code != 4:
+                # the history is innocent: the state came from an earlier history of the same interpreter.  Find the smallest
+                # culprit "parse X, mutate result, then parse J", every candidate in its own fresh interpreter.
+                jx = next((j for kind, i, j in h if i == ob["i"] and j is not None), None)
+                seen_jobs = []
+                for _, hh in reversed(batch[:hpos]):
+                    for kind, i, j in hh:
+                        if j is not None and j not in seen_jobs:
+                            seen_jobs.append(j)
+                if jx is not None:
+                    rank = lambda j: (corpus[j]["parser"] != corpus[jx]["parser"], fam[corpus[j]["parser"]] != fam[corpus[jx]["parser"]])
+                    cands = sorted(seen_jobs, key=rank)[:48]
+                    mk = lambda j: [("parse_file", 0, j), ("mutate", 0, None), ("parse_file", 1, jx)]
+                    outs = pmap(lambda j: worker("history", {"ops": ops_to_worker(mk(j), corpus)}, timeout=600), cands)
+                    for j, o in zip(cands, outs):
+                        if isinstance(o, list) and len(o) == 2 and o[1].get("digest") != corpus[jx]["digest"]:
+                            rep["ops"] = ops_to_worker(mk(j), corpus)
+                            rep["minimal_history"] = label_text({"shape": "X then J", "A": j, "B": jx})
+                            rep["observed"] = {k: o[1].get(k) for k in ("i", "parser", "file", "digest", "exc", "parts")}
+                            rep["reproduces_alone_in_fresh_interpreter"] = True
+                            label = {"shape": "parse_file A; mutate; parse_file B", "A": j, "B": jx}
+                            break
+            if code == 4:
+                ctx.violation(rep, what=f"parsing changed the input file: {ob['parser']} on {os.path.basename(ob['file'])}")
+            else:
+                ctx.violation(rep, what=f"parse of {ob['parser']}({os.path.basename(ob['file'])}) in history {label_text(label)} differs from the parse in a fresh interpreter")
+        if len(unexplained) > 4:
+            ctx.notes.append(f"{len(unexplained)} unexplained observations in total")
+        if reparse_diff:
+            ctx.count("quirk:reparse", len(reparse_diff))
+            ctx.finding("c16_reparse_accumulates",
+                        "a second parse() on the same parser object does not start from fresh state (data accumulates / raises)",
+                        {"kind": "reparse", "parsers": sorted(reparse_diff),
+                         "how": "p = plugins.call('midgard.parsers', name, file_path=f); p.parse(); d1 = digest(p); p.parse(); digest(p) != d1"})
 
     # ---------------------------------------------------------------- D. generated headers vs the parser_cache model
-    hdr_ok = "wip_rinex3_obs_header" in names
-    n_int, n_files = ((16, 10) if quick else (64, 40)) if hdr_ok else (0, 0)
-    hdir = os.path.join(ctx.work, "hdr")
-    os.makedirs(hdir, exist_ok=True)
-    hcases = []
-    for k in range(n_int):
-        files = []
-        for m in range(n_files):
-            force = True if (m > 0 and rng.random() < 0.3) else None   # the interesting shape: a later file starts with a continuation line
-            files.append(gen_header_file(rng, force))
-        paths = []
-        for m, lines in enumerate(files):
-            p = os.path.join(hdir, f"h{k:03d}_{m:03d}.rnx")
-            with open(p, "w") as f:
-                f.write(header_text(lines))
-            paths.append(p)
-        hcases.append((files, paths))
-    hres = pmap(lambda c: worker("headers", {"parser": "wip_rinex3_obs_header", "files": c[1]}, timeout=600), hcases)
-    hterms, hmeta = [], []
-    for (files, paths), r in zip(hcases, hres):
-        if isinstance(r, dict) or len(r) != len(files):
-            ctx.violation({"kind": "header_worker_failed", "error": r.get("worker_error") if isinstance(r, dict) else "count"},
-                          what="header interpreter crashed", found=False)
-            continue
-        hterms.append(emit.pair(emit.lst(hfile_term(f) for f in files), emit.lst(hres_term(o) for o in r)))
-        hmeta.append((files, r))
-        for m, f in enumerate(files):
-            lead = bool(f) and f[0][0] is None
-            ctx.count("headers:file_starts_with_continuation" if lead else "headers:plain")
-            ctx.case(("HDR", json.dumps(files[:m + 1])), nontrivial=m > 0,
-                     sample={"header_files_before": files[max(0, m - 2):m], "file": f, "observed": r[m]} if lead and m > 0 and len(ctx.samples) < 6 else None)
-    ctx.log(f"header interpreters: {len(hcases)} x {n_files} files")
-    hvs = ctx.coq_cases(["List.concat (List.map check_hdr_detail " + emit.lst(hterms[k:k + 4]) + ")" for k in range(0, len(hterms), 4)], REQ)
-    hv = emit.flatten_verdicts(hvs, sum(len(f) for f, _ in hmeta)) if hterms else []
-    if hv is None:
-        ctx.violation({"broken": "header shard did not evaluate in Coq", "errors": [e[1][-800:] for e in ctx.last_coq_errors[:1]]},
-                      what="correspondence (model evaluation) failed", found=False)
-        hv = []
-    pos = 0
-    for files, r in hmeta:
-        codes = hv[pos:pos + len(files)]
-        pos += len(files)
-        for m, code in enumerate(codes):
-            if code == 0:
+    def phase_headers():
+        hdr_ok = "wip_rinex3_obs_header" in names
+        n_int, n_files = ((8, 12) if quick else (64, 40)) if hdr_ok else (0, 0)
+        hdir = os.path.join(ctx.work, "hdr")
+        os.makedirs(hdir, exist_ok=True)
+        hcases = []
+        for k in range(n_int):
+            files = []
+            for m in range(n_files):
+                force = True if (m > 0 and rng.random() < 0.3) else None   # the interesting shape: a later file starts with a continuation line
+                files.append(gen_header_file(rng, force))
+            paths = []
+            for m, lines in enumerate(files):
+                p = os.path.join(hdir, f"h{k:03d}_{m:03d}.rnx")
+                with open(p, "w") as f:
+                    f.write(header_text(lines))
+                paths.append(p)
+            hcases.append((files, paths))
+        hres = pmap(lambda c: worker("headers", {"parser": "wip_rinex3_obs_header", "files": c[1]}, timeout=600), hcases)
+        hterms, hmeta = [], []
+        for (files, paths), r in zip(hcases, hres):
+            if isinstance(r, dict) or len(r) != len(files):
+                ctx.violation({"kind": "header_worker_failed", "error": r.get("worker_error") if isinstance(r, dict) else "count"},
+                              what="header interpreter crashed", found=False)
                 continue
-            # shortest prefix that matters: from the last earlier file that has a line naming a system
-            start = max([j for j in range(m) if any(sysc is not None for sysc, _ in files[j])] or [0])
-            rep = {"kind": "header_history", "parser": "wip_rinex3_obs_header",
-                   "files": [header_text(f) for f in files[start:m + 1]], "lines": files[start:m + 1], "observed_obs_types_of_last_file": r[m],
-                   "position_in_interpreter": m,
-                   "how": "write the files; in ONE interpreter: [parsers.parse_file('wip_rinex3_obs_header', f).header.get('obs_types') for f in files]; "
-                          "compare with the same call on the last file alone in a fresh interpreter (run_check.py C16 replay <this file>)"}
-            if code == 2:
-                ctx.count("quirk:parser_cache_shared")
-                ctx.finding("c16_parser_cache_shared",
-                            "RinexParser.parse_sys_obs_types reads the parser_cache list shared by all instances: a header starting with a continuation line takes the satellite system of a previously parsed file (IndexError in a fresh interpreter)",
-                            rep)
-            else:
-                ctx.violation(rep, what="header['obs_types'] differs from both the specification and the parser_cache model")
+            hterms.append(emit.pair(emit.lst(hfile_term(f) for f in files), emit.lst(hres_term(o) for o in r)))
+            hmeta.append((files, r))
+            for m, f in enumerate(files):
+                lead = bool(f) and f[0][0] is None
+                ctx.count("headers:file_starts_with_continuation" if lead else "headers:plain")
+                ctx.case(("HDR", json.dumps(files[:m + 1])), nontrivial=m > 0,
+                         sample={"header_files_before": files[max(0, m - 2):m], "file": f, "observed": r[m]} if lead and m > 0 and len(ctx.samples) < 6 else None)
+        ctx.log(f"header interpreters: {len(hcases)} x {n_files} files")
+        hvs = yield ["List.concat (List.map check_hdr_detail " + emit.lst(hterms[k:k + 8]) + ")" for k in range(0, len(hterms), 8)]
+        hv = emit.flatten_verdicts(hvs, sum(len(f) for f, _ in hmeta)) if hterms else []
+        if hv is None:
+            ctx.violation({"broken": "header shard did not evaluate in Coq", "errors": [e[1][-800:] for e in ctx.last_coq_errors[:1]]},
+                          what="correspondence (model evaluation) failed", found=False)
+            hv = []
+        pos = 0
+        for files, r in hmeta:
+            codes = hv[pos:pos + len(files)]
+            pos += len(files)
+            for m, code in enumerate(codes):
+                if code == 0:
+                    continue
+                # shortest prefix that matters: from the last earlier file that has a line naming a system
+                start = max([j for j in range(m) if any(sysc is not None for sysc, _ in files[j])] or [0])
+                rep = {"kind": "header_history", "parser": "wip_rinex3_obs_header",
+                       "files": [header_text(f) for f in files[start:m + 1]], "lines": files[start:m + 1], "observed_obs_types_of_last_file": r[m],
+                       "position_in_interpreter": m,
+                       "how": "write the files; in ONE interpreter: [parsers.parse_file('wip_rinex3_obs_header', f).header.get('obs_types') for f in files]; "
+                              "compare with the same call on the last file alone in a fresh interpreter (run_check.py C16 replay <this file>)"}
+                if code == 2:
+                    ctx.count("quirk:parser_cache_shared")
+                    ctx.finding("c16_parser_cache_shared",
+                                "RinexParser.parse_sys_obs_types reads the parser_cache list shared by all instances: a header starting with a continuation line takes the satellite system of a previously parsed file (IndexError in a fresh interpreter)",
+                                rep)
+                else:
+                    ctx.violation(rep, what="header['obs_types'] differs from both the specification and the parser_cache model")
 
-    # ---------------------------------------------------------------- E. plug-in resolution histories
-    resolution_histories(ctx, table, corpus)
+    # ---------------------------------------------------------------- E. plug-in resolution histories (generator, below)
+    gens = [phase_histories(), phase_headers(), resolution_histories(ctx, table, corpus)]
+    all_shards, spans = [], []
+    for g in gens:
+        sh_ = next(g)
+        spans.append(len(sh_))
+        all_shards += sh_
+    t0 = time.time()
+    if quick and all_shards:
+        # one Coq file (one coqc start-up, one wait for a machine-wide coqc slot): the parts separated by a sentinel
+        SENT = -777
+        term = "[]"
+        for sh_ in reversed(all_shards):
+            term = f"List.app ({sh_}) (({SENT}) :: {term})"
+        one_v = ctx.coq_cases([term], REQ + "\n" + REQ_RES, timeout=1500)[0]
+        all_vs = [None] * len(all_shards)
+        if one_v is not None and one_v.count(SENT) == len(all_shards):
+            all_vs, cur = [], []
+            for x in one_v:
+                if x == SENT:
+                    all_vs.append(cur)
+                    cur = []
+                else:
+                    cur.append(x)
+    else:
+        all_vs = ctx.coq_cases(all_shards, REQ + "\n" + REQ_RES, timeout=1500) if all_shards else []
+    ctx.log(f"{len(all_shards)} Coq case files evaluated in {time.time() - t0:.0f}s")
+    pos = 0
+    for g, n_ in zip(gens, spans):
+        try:
+            g.send(all_vs[pos:pos + n_])
+        except StopIteration:
+            pass
+        pos += n_
 
     # ---------------------------------------------------------------- decide
     if not ok:
@@ -866,7 +926,7 @@ def resolution_histories(ctx, table, corpus):
     U = [(k, n) for k in files for n in files[k]]
     U += [(k, n) for n in multi for k in files if (k, n) not in U]
     singles = [n for n in listed[0] if n not in multi]
-    probes = singles if not quick else rng.sample(singles, min(8, len(singles)))
+    probes = singles if not quick else rng.sample(singles, min(4, len(singles)))
     for forced in ("vlbi_source_names", "sp3"):
         if forced in singles and forced not in probes:
             probes.append(forced)
@@ -878,7 +938,19 @@ def resolution_histories(ctx, table, corpus):
         return worker("resolve", {"ops": [{"op": "get", "pkg": PKGS[k][1], "name": n}]}, timeout=300)
 
     t0 = time.time()
-    ref = pmap(one, U)
+    # quick: one fresh interpreter per look-up for the names that exist in several packages, the probes and the files that are
+    # not listed; for the other listed names in their own package the reference is the row of the plug-in table (section A;
+    # that interpreter only listed and loaded).  thorough: every look-up in its own interpreter.
+    from_table = {}
+    if quick:
+        special = set(multi) | set(probes)
+        for k, (kind, _) in enumerate(PKGS):
+            for r in table[kind]["rows"]:
+                if r["name"] not in special:
+                    from_table[(k, r["name"])] = bool(r["loaded"])
+    U_run = [kn for kn in U if kn not in from_table]
+    ref_run = dict(zip(U_run, pmap(one, U_run)))
+    ref = [ref_run[kn] if kn in ref_run else [{"found": from_table[kn]}] for kn in U]
     has = {}
     for (k, n), r in zip(U, ref):
         if isinstance(r, dict) or "found" not in r[0]:
@@ -889,7 +961,7 @@ def resolution_histories(ctx, table, corpus):
                               what=f"plugins.get({PKGS[k][1]!r}, {n!r}) fails in a fresh interpreter: {str(r)[:160]}")
         else:
             has[(k, n)] = bool(r[0]["found"])
-    ctx.log(f"resolution reference: {len(U)} single look-ups in fresh interpreters in {time.time() - t0:.0f}s")
+    ctx.log(f"resolution reference: {len(U_run)} single look-ups in fresh interpreters (+{len(from_table)} from the plug-in table) in {time.time() - t0:.0f}s")
 
     # parse jobs usable in the histories: parsers with shared names first, then a sample
     pj = [j for j in corpus if j["parser"] in multi or j["parser"] in probes]
@@ -932,7 +1004,7 @@ def resolution_histories(ctx, table, corpus):
         hists.append((f"names({PKGS[k0][0]})_first", ops))
     pool = ([lambda: op_names(rng.randrange(3))] * 2 + [lambda: op_look(rng.choice(["get", "exists", "load"]), *rng.choice(U))] * 10
             + [lambda: op_parse(rng.choice(pj))] * (2 if pj else 0))
-    for _ in range(10 if quick else 80):
+    for _ in range(6 if quick else 80):
         hists.append(("random", [rng.choice(pool)() for _ in range(rng.randrange(20, 60))]))
     for label, _ in hists:
         ctx.count("resolve:" + label.split(":")[0])
@@ -976,12 +1048,12 @@ def resolution_histories(ctx, table, corpus):
         meta.append((label, ops, res))
         ctx.case(("RES", label, json.dumps([strip(o) for o in ops])[:20000]), nontrivial=True,
                  sample={"resolution_history": label, "first_ops": [strip(o) for o in ops[:4]]} if len(ctx.samples) < 6 else None)
-    nsh = 4 if quick else 16
+    nsh = 2 if quick else 16
     groups_ = [list(range(len(terms)))[k::nsh] for k in range(nsh)]
     groups_ = [g for g in groups_ if g]
     shards = ["let has_t := " + has_t + " in\nlet files_t := " + files_t + " in\nlet jobs_t := " + jobs_t + " in\n"
               "List.concat " + emit.lst(terms[i] for i in g) for g in groups_]
-    svs = ctx.coq_cases(shards, REQ_RES)
+    svs = yield shards
     vs = [None] * len(terms)
     for g, sv in zip(groups_, svs):
         if sv is None or len(sv) != sum(len(meta[i][1]) for i in g):
